@@ -114,7 +114,10 @@ def gen_triggers(rng):
                 a, tp = action(kind, rng.choice(["-1", "-1", "1", "2"]))
                 acts.append(a)
                 desc.append(dict(tp=tp, at="%s:%s()" % (base, func), kind=kind, fire_count=a.config["fire_count"]))
-            trigs.append(Trigger(FunctionLocation(base, func, Location.Position.START), acts))
+            # the position a method tracepoint was configured with (stage method_start / method_end / method_capture) does not move the
+            # opening: a method location is entered at the call, whatever its position says
+            pos = [Location.Position.START, Location.Position.START, Location.Position.END, Location.Position.CAPTURE][n[0] % 4]
+            trigs.append(Trigger(FunctionLocation(base, func, pos), acts))
     for base in ("a.py", "b.py"):
         for line in (2, 3, 4):
             if rng.random() < 0.35:
